@@ -324,7 +324,8 @@ let () =
   let lines = read_lines Sys.argv.(1) in
   let impl = if Array.length Sys.argv > 2 && Sys.argv.(2) <> "-" then read_lines Sys.argv.(2) else [] in
   let impl = Array.of_list impl in
-  (* model variants: which of the still-open repairs are assumed (94649ad is in /repo: v_keyhit always true here) *)
+  (* every recorded repair is in /repo; the other names only replay historical witnesses by hand
+     (argv[3] = pre_d2827a3 | unclaimed_paths | superseded_survives | unclaimed_and_superseded | pre_94649ad) *)
   let vname = if Array.length Sys.argv > 3 then Sys.argv.(3) else "repaired" in
   let variant = match vname with
     | "unclaimed_paths" -> { v_keyhit = true; v_claim_all = false; v_evict_pp = true }
@@ -351,7 +352,7 @@ let () =
             else "malformed"
           | "e2e" :: rest -> run_e2e variant rest
           | "rpppoe" :: rest -> run_restore true variant rest
-          | "ripoe" :: rest -> run_restore ~halfopen_unclaimed:(vname = "halfopen_unclaimed") false variant rest
+          | "ripoe" :: rest -> run_restore ~halfopen_unclaimed:(vname = "pre_d2827a3") false variant rest
           | "ipoe" :: rest -> run_callers proto_ipoe rest (if idx < Array.length impl then tokens impl.(idx) else [])
           | "pppoe" :: rest -> run_callers ~any:variant.v_evict_pp proto_pppoe rest (if idx < Array.length impl then tokens impl.(idx) else [])
           | "seq" :: rest -> run_seq rest (if idx < Array.length impl then tokens impl.(idx) else [])
